@@ -41,6 +41,16 @@ WIDE = {
     "<c>": ["x", "y"],
 }
 
+# 30 cells with structure below each cell: nested quantifiers whose `in` variable sits at a child index >= 27
+WIDE2 = {
+    "<start>": ["<row>"],
+    "<row>": ["<c>" * 30],
+    "<c>": ["<p>"],
+    "<p>": ["<k>=<v>"],
+    "<k>": ["a", "b"],
+    "<v>": ["0", "1"],
+}
+
 AMB = {
     "<start>": ["<A>"],
     "<A>": ["<A><A>", "a"],
@@ -61,12 +71,25 @@ TAGS = {
     "<id>": ["a", "b"],
 }
 
+# header / item with a redundant field: constraints over an element AND over one of its parts (C01 scenarios)
+KV = {
+    "<start>": ["<hdr>:<item>"],
+    "<hdr>": ["<d><d>"],
+    "<item>": ["<word>=<num>"],
+    "<num>": ["<d><d>"],
+    "<word>": ["<l><word>", "<l>"],
+    "<l>": ["a", "b"],
+    "<d>": ["0", "1", "2"],
+}
+
 CATALOGUE = {
+    "kv": KV,
     "assgn": ASSGN,
     "list": LIST,
     "block": BLOCK,
     "null": NULL,
     "wide": WIDE,
+    "wide2": WIDE2,
     "amb": AMB,
     "signed": SIGNED,
     "tags": TAGS,
